@@ -230,8 +230,12 @@ pub fn persist_temp_file<P: AsRef<Path>>(
     temp_file: NamedTempFile,
     new_path: P,
 ) -> io::Result<File> {
+    #[cfg(jj_vcs_jj_verif)]
+    let _verif = crate::verif_hooks::scope("persist", &new_path.as_ref().display());
     // Ensure persisted file content is flushed to disk.
     temp_file.as_file().sync_data()?;
+    #[cfg(jj_vcs_jj_verif)]
+    crate::verif_hooks::point("persist.synced", &new_path.as_ref().display());
     temp_file
         .persist(new_path)
         .map_err(|PersistError { error, file: _ }| error)
@@ -245,7 +249,11 @@ pub fn persist_content_addressed_temp_file<P: AsRef<Path>>(
 ) -> io::Result<File> {
     // Ensure new file content is flushed to disk, so the old file content
     // wouldn't be lost if existed at the same location.
+    #[cfg(jj_vcs_jj_verif)]
+    let _verif = crate::verif_hooks::scope("persist", &new_path.as_ref().display());
     temp_file.as_file().sync_data()?;
+    #[cfg(jj_vcs_jj_verif)]
+    crate::verif_hooks::point("persist.synced", &new_path.as_ref().display());
     if cfg!(windows) {
         // On Windows, overwriting file can fail if the file is opened without
         // FILE_SHARE_DELETE for example. We don't need to take a risk if the
